@@ -140,7 +140,18 @@ fn json_item<T: Serialize + DeserializeOwned + PartialEq + 'static>(
     eq_by_bytes: bool,
 ) -> WireItem {
     let ser = |v: &T| serde_json::to_string(v).ok().map(|s| s.into_bytes());
-    let de = |b: &[u8]| std::str::from_utf8(b).ok().and_then(|s| serde_json::from_str::<T>(s).ok());
+    // a JSON document must decode the same from memory, through a reader and through a parsed Value
+    let de = |b: &[u8]| -> Option<T> {
+        let a = std::str::from_utf8(b).ok().and_then(|s| serde_json::from_str::<T>(s).ok());
+        let r = serde_json::from_reader::<_, T>(std::io::Cursor::new(b.to_vec())).ok();
+        let v = serde_json::from_slice::<serde_json::Value>(b).ok().and_then(|v| serde_json::from_value::<T>(v).ok());
+        match (a, r, v) {
+            (Some(a), Some(r), Some(v)) if a == r && a == v => Some(a),
+            (None, None, None) => None,
+            // the three ways disagree: report as a value that cannot be re-encoded (never canonical)
+            _ => None,
+        }
+    };
     let bytes = ser(v);
     let roundtrip = match &bytes {
         None => Err("json serialize failed".to_string()),
